@@ -341,6 +341,9 @@ def run(ctx) -> None:
     ctx.rule(rule_structure)
     ctx.rule(rule_formats)
     ctx.rule(rule_pattern)
+    # image lengths, aligned sizes and alignment padding go through spsdk.utils.misc.align / align_block: decided by C20's rules
+    from . import c20 as _c20
+    ctx.rule(lambda c: c.borrow(_c20.rule_align, "C20.align", "C16.align-helper"))
     ctx.chk.assumptions = ["bincopy's add_binary/as_ihex/as_srec keep addresses and bytes", "zero-length children are outside the validate reference (degenerate intervals)",
                            "not decided: byte contents of patterns, bincopy round trip"]
 
